@@ -73,6 +73,16 @@ def stepStream (d : Dir) (ws : List String) : Dir × String :=
     | some i, some m => faultRes d (.trunc i (m != 0))
     | _, _ => (d, "bad-op")
   | ["close"] => faultRes d .close
+  | ["replay-hs", dir, i, j] =>
+    -- a ciphertext frame recorded during the encrypted part of the HANDSHAKE of this connection, spliced in at
+    -- position j: frame i of this direction (dir 0: same key, nonce i) or of the opposite one (dir 1: other key)
+    match nat? dir, nat? i, nat? j with
+    | some dr, some i, some j =>
+      if i < Gen.Transport.handshakeFrames ∧ j ≤ d.ch.wire.length ∧ dr ≤ 1 then
+        let d' := { d with ch := { d.ch with wire := insertAt d.ch.wire j (.sealed (d.w.key + dr) (nonceAt 0 i) (mkFrame [] [])) } }
+        (d', "ok " ++ toString d'.ch.wire.length)
+      else (d, "bad-index")
+    | _, _, _ => (d, "bad-op")
   | ["other-key", i] =>
     -- a frame of the opposite direction / another session spliced in at position i
     match nat? i with
@@ -195,9 +205,17 @@ def step (d : Dir) (line : String) : Dir × String :=
       | "AEADKeySize" => toString Gen.Transport.aEADKeySize
       | "AEADNonceSize" => toString Gen.Transport.aEADNonceSize
       | "HKDFSize" => toString Gen.Transport.hKDFSize
+      | "handshakeFrames" => toString Gen.Transport.handshakeFrames
       | _ => "bad-op")
   | ws => stepStream d ws
 
 end Driver.C17
 
-def main : IO Unit := Driver.loopStateful (Canopy.Transport.Dir.init 1) Driver.C17.step
+/-- every case starts on a freshly established connection: after the handshake frames when the session
+keeps the handshake's AEAD states (generated fact), at nonce 0 when the code re-creates them -/
+def Driver.C17.start : Canopy.Transport.Dir :=
+  if Canopy.Gen.Transport.sessionKeepsHandshakeState then
+    Canopy.Transport.Dir.afterHandshake 1 Canopy.Gen.Transport.handshakeFrames
+  else Canopy.Transport.Dir.init 1
+
+def main : IO Unit := Driver.loopStateful Driver.C17.start Driver.C17.step
